@@ -467,6 +467,12 @@ func removeStates(u *univ.Universe, pa, pb map[string][]byte, ka, kb sorted.KeyV
 		sz, _ := strconv.Atoi(f[2])
 		name := fmt.Sprintf("pack-%05d.blobs", fi)
 		hl := len(fmt.Sprintf("[%s %d]", ref, sz))
+		// an index row that does not point at the blob's record (wrong pack, offset beyond the file) is the code's
+		// problem and shows in the ordinary observations; this function only derives removal crash states from
+		// rows that do
+		if off-hl < 0 || off+sz > len(pa[name]) || off+sz > len(pb[name]) {
+			continue
+		}
 		regs = append(regs, region{name, off - hl, off, off, off + sz})
 	}
 	if len(regs) == 0 {
